@@ -1,2 +1,39 @@
-(* placeholder until the theorems are integrated *)
-From SE Require Import Model.System.
+(* C01 - StatsD lines aggregate to exactly the predicted Prometheus series.
+   Implementation model: Model/System.v (line parser -> mapper with FSM and cache -> exporter ->
+   registry with client-library vectors -> scrape).  Specification: Spec/SystemSpec.v - the last
+   loaded configuration answers by spec_lookup (first match / most specific / regex), and the
+   registry is the flat account of Spec/SeriesSpec.v (claim, shape, series functions).
+   What a line means as events is C09/C10 (Spec/LineSpec.v: sem_single, decomposition).
+   The numeric accumulation inside a series is the client library's (modelled, Model/ClientGolang.v:
+   counter sum, gauge set/add, histogram count/sum/buckets, summary count/sum). *)
+From SE Require Import Spec.SystemSpec Proofs.SystemProofs Proofs.SeriesProofs.
+
+(* For every sound mapping cache and every history of lines, reloads, clock advances, sweeps and
+   scrapes, the implementation model and the specification answer alike, and the registry then
+   exposes, for EVERY series key, exactly what the flat account holds: same type, help, value,
+   no series more and none less. *)
+Theorem C01_system_refines_spec : forall pf uni_word re_match heur_bt re_compiles CS c_get c_add c_reset builtins,
+  stmt_system_refines_spec pf uni_word re_match heur_bt re_compiles CS c_get c_add c_reset builtins.
+Proof. exact system_refines_spec_ok. Qed.
+Print Assumptions C01_system_refines_spec.
+
+(* the exporter/registry layer on its own, for arbitrary events and mapping answers *)
+Theorem C01_registry_refines_flat : stmt_registry_refines_flat.
+Proof. exact registry_refines_flat_ok. Qed.
+Print Assumptions C01_registry_refines_flat.
+
+(* a scrape lists exactly the series of the lookup function, each once *)
+Theorem C01_samples_are_lookups : stmt_samples_are_lookups.
+Proof. exact samples_are_lookups_ok. Qed.
+Print Assumptions C01_samples_are_lookups.
+
+(* Non-vacuity: an unmapped gauge sample creates exactly one series in the flat account. *)
+Definition c01_event : event := {| e_kind := KGauge false; e_name := [x67]; e_value := f_zero; e_labels := [] |}.
+Definition c01_witness : bool :=
+  match flat_step fx0 (XEvent zero_defaults 0%Z c01_event None) with
+  | Some fx => match flat_lookup (fx_state fx) [x67] [] [], flat_lookup (fx_state fx) [x68] [] [] with
+               | Some (MGauge, _, _, _, _), None => true | _, _ => false end
+  | None => false
+  end.
+Example C01_example : c01_witness = true.
+Proof. vm_compute. reflexivity. Qed.
